@@ -74,13 +74,16 @@ def names_in(text: str) -> set[str]:
 
 
 CallOverride = Callable[[Any, ast.Call, dict, int], bool]
+EdgeFilter = Callable[[Node, str, dict], bool]          # (test node, 'T'|'F', env) -> is the edge feasible?
 
 
 class VN(Problem):
-    def __init__(self, c: Ctx, f: Func, call_override: CallOverride | None = None) -> None:
+    def __init__(self, c: Ctx, f: Func, call_override: CallOverride | None = None,
+                 edge_filter: EdgeFilter | None = None) -> None:
         self.c, self.f = c, f
         self.cfg = c.cfg(f)
         self.call_override = call_override
+        self.edge_filter = edge_filter
         self.sticky: dict[int, set[str]] = {}
 
     # ------------------------------------------------------------------ environment access
@@ -253,6 +256,8 @@ class VN(Problem):
         if a is None:
             return env
         if n.kind == "test":
+            if self.edge_filter is not None and label in ("T", "F") and not self.edge_filter(n, label, env):
+                return None
             self._calls(env, a, nid)
             self._walrus(env, a, nid)
             return env
@@ -344,7 +349,8 @@ class VN(Problem):
                 env[b + "[*]"] = ("def", nid, "store:" + U(t))
 
 
-def analyse(c: Ctx, f: Func, call_override: CallOverride | None = None) -> tuple[CFG, dict[int, dict | None], VN]:
-    vn = VN(c, f, call_override)
+def analyse(c: Ctx, f: Func, call_override: CallOverride | None = None,
+            edge_filter: EdgeFilter | None = None) -> tuple[CFG, dict[int, dict | None], VN]:
+    vn = VN(c, f, call_override, edge_filter)
     res = solve(vn.cfg, vn, widen_after=10**9)
     return vn.cfg, res, vn
